@@ -18,7 +18,7 @@ ASSUMPTIONS = ['float32 logits compared within 2e-4 relative to the largest |log
                'termination is decided on decoding steps: at most W//4 + 2']
 N = {'quick': 40, 'thorough': 3000}
 CLASSES = ['default', 'deep', 'wide', 'eos_early', 'never_ends', 'single_head', 'run_ocr', 'default', 'batch_256', 'long_line', 'huge_alphabet']
-REQUIRED = ['models_with_more_than_32767_classes', 'run_ocr_float_batches', 'batches_of_256_or_more_lines', 'lines_decoded_for_more_than_500_steps', 'models_with_zero_width_space_in_the_alphabet', 'batches', 'cached_vs_uncached', 'cached_vs_teacher_forced', 'fresh_vs_history', 'single_vs_batch_lines', 'cache_calls_checked', 'cross_attention_cache_checked',
+REQUIRED = ['stepwise_prefix_decodes', 'steps_scored_twice', 'uncached_step_after_cached_ones', 'models_with_more_than_32767_classes', 'run_ocr_float_batches', 'batches_of_256_or_more_lines', 'lines_decoded_for_more_than_500_steps', 'models_with_zero_width_space_in_the_alphabet', 'batches', 'cached_vs_uncached', 'cached_vs_teacher_forced', 'fresh_vs_history', 'single_vs_batch_lines', 'cache_calls_checked', 'cross_attention_cache_checked',
             'batches_after_different_batch', 'lines_hit_length_cap', 'lines_ended', 'run_ocr_batches', 'run_ocr_history_batches']
 SHARDS = {'quick': 8, 'thorough': 16}
 TIMEOUT = {'quick': 1200, 'thorough': 10800}
@@ -249,6 +249,40 @@ def check(case, mon, ctx):
             if dd > TOL_REL * max(5.0, float(np.abs(lg_f).max(initial=0))):
                 mon.violation('independent-of-earlier-batches', dict(w, via='run_ocr on a long-lived engine vs a freshly loaded engine', max_abs_diff=dd, steps_compared=nst,
                               previous_batches=[(q['n'], q['w']) for q in case['batches'][:bi]]))
+        if bi == 0 and b['n'] <= 8 and b['w'] <= 512:
+            # the step-wise decoder interface driven by the harness with an arbitrary target prefix (not the arg-max path): every step's scores equal the masked forward pass
+            # over that prefix - also when a step is scored twice with two candidate symbols (look-ahead) before going on, and when the last step is recomputed without caches after k cached ones
+            srng = np.random.default_rng(b['seed'] + 7)
+            S = int(min(12, b['w'] // 4))
+            lab = srng.integers(0, BND, size=(S, b['n']))
+            lab[0, :] = BND
+            lab_t = torch.from_numpy(lab).long()
+            with torch.no_grad(), contextlib.redirect_stdout(io.StringIO()):
+                ctx.check_cache = False
+                xf = torch.from_numpy(x).float() / 255.0
+                ref_full = eng.net(xf, lab_t.permute(1, 0)).permute(1, 0, 2)            # lines, steps, classes
+                enc = eng.net.encode(xf)
+                embs = torch.empty((0, b['n'], enc.shape[2]))
+                worst, where = 0.0, None
+                for t in range(S):
+                    if t > 0 and srng.random() < 0.3:
+                        alt = (lab_t[t] + 1) % BND                                       # look-ahead: the same step with another candidate first
+                        eng.net.trans_decoder.infer(eng.net.pos_encoder(torch.cat((embs, eng.net.dec_embeder(alt).unsqueeze(0)))), enc, is_cached=True)
+                        mon.count('steps_scored_twice')
+                    embs = torch.cat((embs, eng.net.dec_embeder(lab_t[t]).unsqueeze(0)))
+                    # (a step recomputed without caches does not fill them, so only the LAST step may be of the other kind: k cached steps, then step k+1 from scratch)
+                    cached = not (t == S - 1 and t > 1 and (b['seed'] % 2 == 0))
+                    if not cached:
+                        mon.count('uncached_step_after_cached_ones')
+                    out_t = eng.net.dec_out_proj(eng.net.trans_decoder.infer(eng.net.pos_encoder(embs), enc, is_cached=cached))
+                    d_ = float((out_t - ref_full[:, t]).abs().max())
+                    if d_ > worst:
+                        worst, where = d_, (t, cached)
+            mon.count('stepwise_prefix_decodes')
+            mon.observe_max('stepwise_vs_forward_rel', worst / max(5.0, float(ref_full.abs().max())))
+            if worst > TOL_REL * max(5.0, float(ref_full.abs().max())):
+                mon.violation('cached-equals-teacher-forced-forward', dict(w, via='step-wise interface with a harness-chosen prefix, look-ahead re-scoring and a final step recomputed without caches', max_abs_diff=worst,
+                              step=where[0], step_was_cached=where[1], steps=S))
         if case['cls'] == 'run_ocr' and b['w'] < 1088:
             # run_ocr on a floating-point batch with non-integer pixel values (an image that went through interpolation): the scores are those of the
             # same pixels padded to 1088 columns by the harness
